@@ -230,6 +230,10 @@ func compile(d Desc) (*compiled, error) {
 			return nil, bad("macro-out-of-model")
 		}
 	}
+	if c.meta.ID == 0 {
+		// what a rule without an id does is not part of the model
+		return nil, bad("missing-id")
+	}
 	if d.SecAction {
 		return c, nil
 	}
@@ -774,6 +778,9 @@ func refTargets(s string) ([]Target, error) {
 				t.Kind = kindPlain
 				k := j
 				for k < len(s) && s[k] != '|' && (s[k] != '\'' || !t.Quoted) {
+					if s[k] == '\'' {
+						return nil, bad("quote-inside-plain-key")
+					}
 					if s[k] == '/' {
 						return nil, bad("slash-inside-plain-key")
 					}
